@@ -351,7 +351,8 @@ def run(chk, tier):
             chk.add_tlc(cfg, r)
             if r.violated:
                 chk.violation("JavaRoute.tla violates %s" % r.violated, r.trace_text, key={"model": "JavaRoute", "inv": r.violated})
-    chk.extra["programs"] = stats
+    chk.extra["programs"] = stats.get("members", 0) + stats.get("corpus_programs", 0)
+    chk.extra["program_stats"] = stats
     chk.extra["levels"] = LEVELS
     chk.extra["routes"] = ROUTES
     chk.extra["features"] = javaslice.FEATURES
